@@ -113,7 +113,7 @@ def _atomize_pow(a: Poly, k: Fraction) -> Poly:
     return {((("sum", freeze(a)), k),): Fraction(1)}
 
 
-def to_poly(s, atom_map=None) -> Optional[Poly]:
+def to_poly(s, atom_map=None, _depth: int = 0) -> Optional[Poly]:
     """Normal form of a symbolic term; None when the term is unknown."""
     if s is None:
         return None
@@ -127,35 +127,35 @@ def to_poly(s, atom_map=None) -> Optional[Poly]:
                 return p_atom(s)
         return p_atom(s)
     if k in ("add", "sub"):
-        a, b = to_poly(s[1], atom_map), to_poly(s[2], atom_map)
+        a, b = to_poly(s[1], atom_map, _depth), to_poly(s[2], atom_map, _depth)
         if a is None or b is None:
             return None
         return p_add(a, b, 1 if k == "add" else -1)
     if k == "mul":
-        a, b = to_poly(s[1], atom_map), to_poly(s[2], atom_map)
+        a, b = to_poly(s[1], atom_map, _depth), to_poly(s[2], atom_map, _depth)
         if a is None or b is None:
             return None
         return p_mul(a, b)
     if k == "neg":
-        a = to_poly(s[1], atom_map)
+        a = to_poly(s[1], atom_map, _depth)
         return None if a is None else p_neg(a)
     if k == "div":
-        a, b = to_poly(s[1], atom_map), to_poly(s[2], atom_map)
+        a, b = to_poly(s[1], atom_map, _depth), to_poly(s[2], atom_map, _depth)
         if a is None or b is None or not b:
             return None
         inv = p_pow(b, Fraction(-1))
         return None if inv is None else p_mul(a, inv)
     if k == "pow":
-        a, e = to_poly(s[1], atom_map), s[2]
+        a, e = to_poly(s[1], atom_map, _depth), s[2]
         if a is None or e is None:
             return None
         if e[0] == "const" and isinstance(e[1], (int, float)) and not isinstance(e[1], bool):
             return p_pow(a, Fraction(e[1]).limit_denominator(1000))
-        ep = to_poly(e, atom_map)
+        ep = to_poly(e, atom_map, _depth)
         return p_atom(("pow", freeze(a), freeze(ep) if ep is not None else None))
     if k == "call":
         name = s[1]
-        args = [to_poly(x, atom_map) for x in s[2:]]
+        args = [to_poly(x, atom_map, _depth) for x in s[2:]]
         if any(a is None for a in args):
             return None
         if name == "math.sqrt" and len(args) == 1:
@@ -164,11 +164,22 @@ def to_poly(s, atom_map=None) -> Optional[Poly]:
             return args[0]
         # odd/even structure of a few functions is used by the symmetry rules through recognised shapes only
         return p_atom(("call", name) + tuple(freeze(a) for a in args))
-    if k in ("max", "min", "abs", "cmp", "fold"):
+    if k == "fold":
+        # ('fold', ('const','+'), ('const', var), elem, ('lenterm', term)): alpha-normalise the bound variable
+        var = s[2][1]
+        from .ai.values import subst_sym, ivar
+
+        elem = subst_sym(s[3], {var: ivar(f"$fold{_depth}")})
+        pe = to_poly(elem, atom_map, _depth + 1)
+        lt = s[4]
+        if atom_map is not None:
+            lt = atom_map(lt)
+        return p_atom(("fold", s[1][1], freeze(pe) if pe is not None else None, lt))
+    if k in ("max", "min", "abs", "cmp"):
         args = []
         for x in s[1:]:
             if isinstance(x, tuple) and x and x[0] not in ("lenterm",):
-                px = to_poly(x, atom_map)
+                px = to_poly(x, atom_map, _depth)
                 args.append(freeze(px) if px is not None else x)
             else:
                 args.append(x)
